@@ -56,6 +56,10 @@ where
           return;
         }
       }
+      if !s.is_subscribed() {
+        // the subscriber ended inside the hand-over callback (e.g. take(1))
+        return;
+      }
 
       let sbsc = Arc::new(RwLock::new(None::<Subscription>));
       {
